@@ -384,3 +384,5 @@ func propC05() Prop[C05Case] {
 func TestC05(t *testing.T) { Run(t, propC05()) }
 
 func FuzzGenC05(f *testing.F) { RunFuzz(f, propC05()) }
+
+func TestRaceC05(t *testing.T) { RunConcurrent(t, propC05(), 4) }
